@@ -144,3 +144,150 @@ def install_small_maxdiff(max_diff=2 ** 8):
   ec_aggregate_checks.CheckECKeySmallDifference.__init__.__defaults__ = (
       max_diff,)
   paranoid._check_factory.clear()
+
+
+# ------------------------------------------------------------ EC / ECDSA
+
+def all_curve_ids():
+  return sorted(gen.pb2().CurveType.values())
+
+
+def ec_hostile_key(rng, curve_id=None, kind=None):
+  """One well-formed but possibly hostile EC key. Returns (ECKey, desc)."""
+  from vp import sigs
+  pb = gen.pb2()
+  if curve_id is None:
+    curve_id = rng.choice(all_curve_ids() + [gen.curve_id(c) for c in gen.NAMED]
+                          * 2)
+  name = pb.CurveType.Name(curve_id)
+  if name not in gen.NAMED:
+    return gen.ec_key(curve_id, rng.bits(rng.choice([0, 8, 200, 600])),
+                      rng.bits(rng.choice([0, 8, 200]))), 'unsupported:' + name
+  mc = gen.model_curve(name)
+  p, n = mc.p, mc.n
+  kind = kind or rng.choice(['valid', 'valid', 'valid', 'small', 'zero',
+                             'yzero', 'xeqp', 'plusp', 'huge', 'offcurve',
+                             'xzero', 'negated', 'structured'])
+  d = rng.below(n - 1) + 1
+  x, y = sigs.mulg(name, d)
+  if kind == 'small':
+    x, y = sigs.mulg(name, rng.choice([1, 2, 3, 2 ** 31, n - 1, n - 2]))
+  elif kind == 'structured':
+    x, y = sigs.mulg(name, (rng.bits(32) | 1) << (8 * rng.randint(0, 20)))
+  elif kind == 'zero':
+    x, y = 0, 0
+  elif kind == 'yzero':
+    y = 0
+  elif kind == 'xzero':
+    x = 0
+  elif kind == 'xeqp':
+    x = p
+  elif kind == 'plusp':
+    x, y = rng.choice([(x + p, y), (x, y + p), (x + p, y + p), (x + 2 * p, y)])
+  elif kind == 'huge':
+    x, y = rng.bits(600), rng.bits(600)
+  elif kind == 'offcurve':
+    y = (y + 1 + rng.below(p - 2)) % p
+  elif kind == 'negated':
+    y = -y % p
+  return gen.ec_key(curve_id, x, y, pad=rng.choice([0, 0, 2])), \
+      '%s:%s' % (name, kind)
+
+
+def ec_hostile_batch(rng, size, curves=None):
+  """Batch in which *pairs* of special cases co-occur: duplicates of every
+  kind (a duplicate of an invalid point is its own case), re-encodings."""
+  keys, descs = [], []
+  while len(keys) < size:
+    cid = gen.curve_id(rng.choice(curves)) if curves and rng.chance(3, 4) \
+        else None
+    k, d = ec_hostile_key(rng, cid)
+    keys.append(k)
+    descs.append(d)
+    r = rng.below(6)
+    if r == 0 and len(keys) < size:          # exact duplicate
+      k2 = type(k)()
+      k2.CopyFrom(k)
+      keys.append(k2)
+      descs.append(d + '+dup')
+    elif r == 1 and len(keys) < size and ':' in d and not d.startswith(
+        'unsupported'):                      # same point, x + p re-encoding
+      mc = gen.model_curve(d.split(':')[0])
+      x = int.from_bytes(k.ec_info.x, 'big') + mc.p
+      keys.append(gen.ec_key(k.ec_info.curve_type, x,
+                             int.from_bytes(k.ec_info.y, 'big')))
+      descs.append(d + '+reencoded')
+    elif r == 2 and len(keys) < size and not d.startswith('unsupported'):
+      # same coordinates on another curve
+      other = gen.curve_id(rng.choice(gen.NAMED))
+      keys.append(gen.ec_key(other, int.from_bytes(k.ec_info.x, 'big'),
+                             int.from_bytes(k.ec_info.y, 'big')))
+      descs.append(d + '+othercurve')
+  order = list(range(len(keys)))
+  rng.shuffle(order)
+  return [keys[i] for i in order], [descs[i] for i in order]
+
+
+def ecdsa_hostile_batch(rng, size):
+  """Well-formed signatures (r, s in [1, n-1]) with hostile surroundings."""
+  from vp import sigs
+  out, descs = [], []
+  issuers = []
+  while len(out) < size:
+    name = rng.choice(gen.NAMED)
+    mc = gen.model_curve(name)
+    n = mc.n
+    kind = rng.choice(['healthy', 'healthy', 'edge-rs', 'hash0', 'hash64',
+                       'badissuer', 'unknowncurve', 'sharedissuer',
+                       'samekey2curves', 'biased', 'dup'])
+    if kind == 'sharedissuer' and issuers:
+      name, d, pub = rng.choice(issuers)
+      mc = gen.model_curve(name)
+      n = mc.n
+    else:
+      d, pub = sigs.issuer(rng, name)
+      issuers.append((name, d, pub))
+    h = gen.msg_hash(rng, 0 if kind == 'hash0' else 64 if kind == 'hash64'
+                     else None)
+    if kind == 'edge-rs':
+      r, s = rng.choice([(1, 1), (n - 1, n - 1), (1, n - 1), (n - 1, 1),
+                         (rng.below(n - 1) + 1, 1)])
+      sig = gen.ecdsa_sig(name, r, s, h, pub)
+    elif kind == 'biased':
+      ks = sigs.nonces_msb(rng, n, 64, 3)
+      for k in ks[:-1]:
+        s_ = sigs.sign_k(name, d, pub, k, gen.msg_hash(rng))
+        if s_ is not None and len(out) < size - 1:
+          out.append(s_)
+          descs.append(name + ':biased')
+      sig = sigs.sign_k(name, d, pub, ks[-1], h)
+    else:
+      sig = sigs.sign_k(name, d, pub, rng.below(n - 1) + 1, h,
+                        pad=rng.choice([0, 0, 1]))
+    if sig is None:
+      continue
+    if kind == 'badissuer':
+      k, _ = ec_hostile_key(rng, gen.curve_id(name), rng.choice(
+          ['zero', 'yzero', 'offcurve', 'plusp', 'huge', 'xeqp']))
+      sig.issuer_key_info.CopyFrom(k.ec_info)
+    elif kind == 'unknowncurve':
+      sig.issuer_key_info.curve_type = rng.choice(
+          [0, 7, 11, 16, 99]) if rng.chance(3, 4) else gen.curve_id(
+              'CURVE_SECT283K1')
+    elif kind == 'samekey2curves':
+      other = rng.choice([c for c in gen.NAMED if c != name])
+      no = gen.model_curve(other).n
+      s2 = gen.ecdsa_sig(other, rng.below(no - 1) + 1, rng.below(no - 1) + 1,
+                         gen.msg_hash(rng), pub)
+      out.append(s2)
+      descs.append(other + ':samekey2curves')
+    out.append(sig)
+    descs.append('%s:%s' % (name, kind))
+    if kind == 'dup':
+      s2 = type(sig)()
+      s2.CopyFrom(sig)
+      out.append(s2)
+      descs.append('%s:dup' % name)
+  order = list(range(len(out)))
+  rng.shuffle(order)
+  return [out[i] for i in order], [descs[i] for i in order]
